@@ -517,8 +517,14 @@ func buildRule(key string, r rule) *ie.IE {
 			return ie.NewGroupedIE(ie.RemoveURR, ch...)
 		}
 	case "pdr":
-		if r.id >= 0 {
+		if r.id >= 0 && !r.idLast {
 			ch = append(ch, ie.NewPDRID(uint16(r.id)))
+		}
+		finish := func(xs []*ie.IE) []*ie.IE {
+			if r.id >= 0 && r.idLast {
+				return append(xs, ie.NewPDRID(uint16(r.id)))
+			}
+			return xs
 		}
 		switch op {
 		case "", "c", "u":
@@ -534,11 +540,11 @@ func buildRule(key string, r rule) *ie.IE {
 				ch = append(ch, ie.NewURRID(u))
 			}
 			if op == "u" {
-				return ie.NewUpdatePDR(ch...)
+				return ie.NewUpdatePDR(finish(ch)...)
 			}
-			return ie.NewCreatePDR(ch...)
+			return ie.NewCreatePDR(finish(ch)...)
 		default:
-			return ie.NewGroupedIE(ie.RemovePDR, ch...)
+			return ie.NewGroupedIE(ie.RemovePDR, finish(ch)...)
 		}
 	}
 	return nil
